@@ -16,7 +16,7 @@ FINISH = dict(level="proof", rule=(
 HDR = "From GS Require Import Tracer.Mem Tracer.EvalMem.\nOpen Scope N_scope.\n"
 SCEN = ["unterminated", "exact4096", "unaligned_long", "cross_unmapped", "cross_ok", "null_ptr", "kernel_ptr", "noncanonical_ptr",
         "unmapped_page", "garbage_dirfd", "huge_dirfd", "unknown_syscall", "negative_syscall", "x32_syscall", "openat2_bad_how",
-        "openat2_how_cross", "execve_bad", "symlink_nest"]
+        "openat2_how_cross", "execve_bad", "symlink_nest", "sysno_bit63", "sysno_upper_ones", "sysno_upper_garbage"]
 RACES = ["threads_exit", "clone_exit", "fork_kill"]
 
 
@@ -88,7 +88,7 @@ def run(c):
             c.finding_or_violation({"kind": "runner-error-on-the-programs-account", "scenario": x["scenario"], "error": o["runner_error"][:80]},
                                    {"case": x, "statuses": o["statuses"]}, klass="rerr:" + x["scenario"])
         # the handler allows everything: a Disallowed Syscall verdict is only legitimate for syscall numbers the table does not know
-        if st.get(5) and x["scenario"] not in ("unknown_syscall", "negative_syscall", "x32_syscall"):
+        if st.get(5) and x["scenario"] not in ("unknown_syscall", "negative_syscall", "x32_syscall", "sysno_bit63", "sysno_upper_ones", "sysno_upper_garbage"):
             c.finding_or_violation({"kind": "false-policy-violation", "scenario": x["scenario"]}, {"case": x, "statuses": o["statuses"]},
                                    klass="disallowed:" + x["scenario"])
         # none of these programs computes or sleeps: a slow run or a Time Limit verdict means the tracer stopped making progress
